@@ -60,3 +60,30 @@ theorem linePre_break (data : Bytes) (ms : List Cand) (hd : ms.Pairwise (fun a b
       rwa [e] at h5
 
 end ZoektModel.C03
+
+namespace ZoektModel.C03
+open ZoektModel
+
+/-- the output of `gatherMatches` satisfies `Gathered` whenever the collected candidates lie inside their texts -/
+theorem gathered_of_gather (data name : Bytes) (cands : List Cand)
+    (hb : ∀ c ∈ cands, c.off + c.sz ≤ (if c.fileName then name.length else data.length)) :
+    Gathered data name (C02.gatherCands name cands) := by
+  by_cases hne : cands = []
+  · subst hne
+    simp only [C02.gatherCands, List.length_nil, if_true]
+    exact ⟨by simp, by simp, by intro c hc; simp only [List.mem_singleton] at hc; subst hc; simp⟩
+  · have hlen : ¬ cands.length = 0 := by simpa using hne
+    simp only [C02.gatherCands, hlen, if_false]
+    have hsub := C02.overlapFilter_sublist (sortCands cands)
+    have hsorted := (C02.sortCands_sorted cands).sublist hsub
+    refine ⟨hsorted, ?_, ?_⟩
+    · cases h : sortCands cands with
+      | nil => simp [C02.overlapFilter]
+      | cons c r =>
+        rw [h] at hsorted
+        simp only [C02.overlapFilter] at hsorted ⊢
+        exact C02.chain_pairwise c _ hsorted (C02.filterFrom_chain c r)
+    · intro c hc
+      exact hb c (C02.mem_sortCands.mp (hsub.subset hc))
+
+end ZoektModel.C03
